@@ -47,7 +47,15 @@ def _env():
     rules = {'id': ('Id', xlsread.cell_str), 'name': ('Name', xlsread.cell_str),
              'opt': ('Opt', xlsread.cell_str, {'default_val': 'D'}), 'ext': None,
              'marks': ('*', xlsread.CellRangeDict(xlsread.cell_str), {'default_val': dict})}
-    _ENV.update(x=xlsread, Obj=Obj, Obj2=Obj2, rules=rules)
+    # the TableReader mixin: a base class with its own rules (id and name swapped) and a derived class with `rules`
+    base_rules = dict(rules, id=('Name', xlsread.cell_str), name=('Id', xlsread.cell_str))
+
+    class BaseT(Obj, xlsread.TableReader):
+        ATTR_RULES = base_rules
+
+    class DerT(BaseT):
+        ATTR_RULES = rules
+    _ENV.update(x=xlsread, Obj=Obj, Obj2=Obj2, rules=rules, BaseT=BaseT, DerT=DerT)
     return _ENV
 
 
@@ -117,6 +125,22 @@ def run_case(case):
     r = _compare(objs, case['objs'], where, key_n)
     if r:
         return r
+    if not case['ladder'] and case['stopOn'] == 'blank all' and key_n == 1:
+        # the same table through the TableReader mixin: base class first, then the class derived from it
+        try:
+            e['BaseT'].read_list(_Sheet(case['sheet']))
+        except Exception:
+            pass
+        w2 = where + ' read with DerT.read_list (TableReader mixin, after BaseT.read_list)'
+        try:
+            objs2 = e['DerT'].read_list(_Sheet(case['sheet']))
+        except Exception as ex:
+            return '%s raised %s: %s' % (w2, type(ex).__name__, str(ex)[:100])
+        if any(o is not None and type(o) is not e['DerT'] for o in objs2):
+            return '%s: objects of type %s' % (w2, sorted({type(o).__name__ for o in objs2 if o is not None}))
+        r = _compare(objs2, case['objs'], w2, 1)
+        if r:
+            return r
     if case['ladder'] and case['stopOn'] == 'blank all':
         try:
             plain = list(x.iter_table(_Sheet(case['filled']), cls, e['rules'], stop_on=case['stopOn']))
